@@ -65,6 +65,13 @@ def check_text(case, stats):
             if a != b:
                 raise Violation(case, "error #%d is %r, expected %r\n%s" % (i, a, b, text))
         raise Violation(case, "parser reports %d errors, expected %d: %r vs %r\n%s" % (len(real[1]), len(ref.errors), real[1][-2:], ref.errors[-2:], text))
+    # a parser that has just been used in stop-at-first-error mode (on a valid document and on this one) and is switched back
+    used = gh.Parser(gh.AstBuilder(gh.IdGenerator()))
+    gh.parse("Feature: v\n @t\n Scenario: s\n  Given x\n", parser=used, stop=True)
+    gh.parse(text, dflt, parser=used, stop=True)
+    again = gh.parse(text, dflt, parser=used, stop=False)
+    if again != real:
+        raise Violation(case, "collecting mode on a parser that was used in stop-at-first-error mode before gives %r, a fresh parser %r\n%s" % (again[1][:3], real[1][:3], text))
     stop = gh.parse(text, dflt, stop=True)
     if stop[0] == "ok":
         raise Violation(case, "stop-at-first-error mode accepts a document the collecting mode rejects\n%s" % text)
